@@ -5,7 +5,7 @@ package mocker
 //	c19.s <cfg> <target> <op> ; <op> ; ...        cfg: off | debug | trace | env   (only lines whose cfg equals $VERIF_C19_CFG run)
 //	c19.sv <kind>:<val> <kind>:<val> ...           arg.SprintV on a vector of reflect.Values (kinds as delivered by reflect.MakeFunc)
 //
-// targets  f2 fv fm fp fa ms mv ia iv ip          (plain / variadic / pointer+interface functions, methods, interface methods)
+// targets  f2 fv fm fp fa ms mv ia iv ip it         (plain / variadic / pointer+interface functions, methods, interface methods)
 // ops      apply <cb> | ret <v,..> | when <a,..> <v,..> | rets <v,..>|<v,..>|.. | call <a,..> | cancel | dbg on|off|tron|troff
 // cb       sum<k> | pan<k> | nilp | echo | retn
 // values   int: -3   string: s<letters>   *node: nil | n<k>   interface{}: nil | i<int> | t<letters> | pn<k> | tn | z<k>
@@ -357,7 +357,7 @@ func (s *c19Impl) V(p string, xs ...int) int {
 }
 
 // shape of a target's parameter list (without receiver): I int, S string, P *node, A interface{}, V ...int
-var c19Shapes = map[string]string{"f2": "IS", "fv": "V", "fm": "SV", "fp": "PA", "fa": "A", "ms": "IS", "mv": "SV", "ia": "IS", "iv": "SV", "ip": "PA"}
+var c19Shapes = map[string]string{"f2": "IS", "fv": "V", "fm": "SV", "fp": "PA", "fa": "A", "ms": "IS", "mv": "SV", "ia": "IS", "iv": "SV", "ip": "PA", "it": "I"}
 
 type c19Scn struct {
 	tgt   string
@@ -382,6 +382,8 @@ func (c *c19Scn) mocker() ExportedMocker {
 		return c.mock.Func(c19FP)
 	case "fa":
 		return c.mock.Func(c19FA)
+	case "it": // a library function goom's own console logger calls (logger.go:358 caller): finding F14
+		return c.mock.Func(strconv.Itoa)
 	case "ms":
 		return c.mock.Struct(&c19S{}).Method("M")
 	case "mv":
@@ -453,6 +455,8 @@ func (c *c19Scn) callback(cb string) interface{} {
 		return bodyP
 	case "fa":
 		return func(v interface{}) int { return body(c19DescAny(v), 0) }
+	case "it": // must not call strconv.Itoa itself
+		return func(i int) string { return fmt.Sprint(body(fmt.Sprint(i), i)) }
 	case "ms":
 		return func(s *c19S, a int, b string) int { return is(a, b) }
 	case "mv":
@@ -472,7 +476,9 @@ func (c *c19Scn) results(s string) []interface{} {
 	parts := strings.Split(s, ",")
 	out := make([]interface{}, len(parts))
 	for i, p := range parts {
-		if c.intResult() {
+		if c.tgt == "it" {
+			out[i] = fmt.Sprint(c19ParseInt(p))
+		} else if c.intResult() {
 			out[i] = c19ParseInt(p)
 		} else if i == 0 {
 			if p == "nil" {
@@ -565,6 +571,8 @@ func (c *c19Scn) c19Call(a []interface{}) (res string) {
 		r = c19FM(a[0].(string), ints(1)...)
 	case "fa":
 		r = c19FA(a[0])
+	case "it":
+		return "->r:" + strconv.Itoa(a[0].(int))
 	case "ms":
 		r = c.recv.M(a[0].(int), a[1].(string))
 	case "mv":
@@ -832,7 +840,7 @@ func TestVerifC19(t *testing.T) {
 			if len(op.Toks) < 2 || op.Toks[1] != cfg {
 				continue
 			}
-			if os.Getenv("VERIF_C19_ISOLATED") == "" && c19HasCycle(op.Toks) {
+			if os.Getenv("VERIF_C19_ISOLATED") == "" && (c19HasCycle(op.Toks) || (len(op.Toks) > 2 && op.Toks[2] == "it")) {
 				continue // slice/map cycles (F13) only run in a child process of their own
 			}
 			if dirty { // a previous scenario toggled the switches: put the process configuration back
